@@ -131,6 +131,13 @@ func runC12(c *Ctx) {
 	}
 
 	// ---- R5 ------------------------------------------------------------------------------
+	c.Rule("R6", "accessor agreement for the id/height tables (consumer height->id map; provider id counter, id->height map, init height): right key space, key arguments by name, setters store their value parameter", 12)
+	checkAccessorAgreement(c, "ck", "HeightValsetUpdateIDKey")
+	checkAccessorAgreement(c, "pk", "ValidatorSetUpdateIdKey", "ValsetUpdateBlockHeightKey", "InitChainHeightKey")
+	checkKeyArgNames(c, "ck")
+	checkSetterValues(c, "ck", []string{"HeightValsetUpdateID"})
+	checkSetterValues(c, "pk", []string{"ValidatorSetUpdateId", "ValsetUpdateBlockHeight", "InitChainHeight"})
+
 	c.Rule("R5", "provider mapping: id==0 ? GetInitChainHeight(consumer) : GetValsetUpdateBlockHeight(id); ValidateSlashPacket fails when unmapped and precedes every effect of OnRecvSlashPacket; the slash sink's infraction height is the mapped height", 8)
 	if f := c.Fn("pk.Keeper.getMappedInfractionHeight"); f != nil {
 		zero := cmpAtom(func(op token.Token, x, y ssa.Value) (bool, bool) {
